@@ -26,7 +26,8 @@ def nz(rng, lo, hi, digits=3):
 ELEMENTARY_FAMILIES = {
     'p': ['general', 'axis+', 'axis-', '3pt-Dpos', '3pt-Dneg', '3pt-D0-C',
           '3pt-D0-B', '3pt-D0-A', '3pt-generic', '3pt-axis-neg',
-          '3pt-axis-pos', '3pt-close', '3pt-D0-large'],
+          '3pt-axis-pos', '3pt-close', '3pt-D0-large', '3pt-thin',
+          '3pt-D0-flat'],
     'px': ['any'], 'py': ['any'], 'pz': ['any'],
     'so': ['any'], 's': ['any'], 'sx': ['any'], 'sy': ['any'], 'sz': ['any'],
     'c/x': ['any'], 'c/y': ['any'], 'c/z': ['any'],
@@ -125,6 +126,38 @@ def elementary(rng, kind, family):
         if family == '3pt-close':
             nrm = [nz(rng, 0.2, 1), nz(rng, 0.2, 1), nz(rng, 0.2, 1)]
             return three_points(rng, nrm, nz(rng, 0.5, 4), close=True)
+        if family == '3pt-thin':
+            # a long and very thin triangle (the side face of a foil): two
+            # points some centimetres apart, the third one 1e-3 to 1e-6 cm
+            # off the line through them
+            length = rng.choice([5.0, 10.0, 20.0])
+            height = rng.choice([1e-3, 1e-4, 1e-5, 2e-6])
+            frac = rng.choice([0.0, 1.0, 0.37])
+            if rng.random() < 0.5:
+                ax = rng.randrange(3)
+                oth = [i for i in range(3) if i != ax]
+                val = nz(rng, 0.5, 4)
+                a, b = rnd(rng, -3, 3), rnd(rng, -3, 3)
+                pts = []
+                for da, db in ((0.0, 0.0), (length, 0.0),
+                               (frac * length, height)):
+                    pnt = [0.0, 0.0, 0.0]
+                    pnt[ax] = val
+                    pnt[oth[0]] = a + da
+                    pnt[oth[1]] = b + db
+                    pts.append(pnt)
+            else:
+                nrm = np.array([nz(rng, 0.2, 1), nz(rng, 0.2, 1),
+                                nz(rng, 0.2, 1)])
+                nrm = nrm / np.linalg.norm(nrm)
+                e1 = np.cross(nrm, [1.0, 0.0, 0.0])
+                e1 /= np.linalg.norm(e1)
+                e2 = np.cross(nrm, e1)
+                base = nrm * nz(rng, 0.5, 4) + rnd(rng, -2, 2) * e1
+                pts = [list(base), list(base + length * e1),
+                       list(base + frac * length * e1 + height * e2)]
+            rng.shuffle(pts)
+            return [float(v) for pnt in pts for v in pnt]
         if family == '3pt-Dpos':
             nrm = [nz(rng, 0.2, 1), nz(rng, 0.2, 1), nz(rng, 0.2, 1)]
             return three_points(rng, nrm, rnd(rng, 0.5, 4))
@@ -160,6 +193,31 @@ def elementary(rng, kind, family):
             if rng.random() < 0.5:
                 k = rng.randrange(3)
                 out[3 * k:3 * k + 3] = [0.0, 0.0, 0.0]
+            return out
+        if family == '3pt-D0-flat':
+            # a plane through the origin and parallel to one coordinate axis
+            # (D = 0 and C = 0, or B = 0, exactly in decimal arithmetic),
+            # given by points metres apart in the plane's own direction but
+            # centimetres apart along that axis: a thin triangle, on which
+            # the computed normal carries more noise than usual
+            a, b = rng.choice([(4, 5), (3, -2), (1, 2), (5, -3), (2, 7),
+                               (-4, 5), (1, -1)])
+            free = rng.choice([2, 2, 1])          # the axis the plane contains
+            oth = [i for i in range(3) if i != free]
+            while True:
+                ts = [rng.randint(-700, 700) / 10.0 for _ in range(3)]
+                zs = [rng.randint(-30, 30) / 10.0 for _ in range(3)]
+                if len(set(ts)) == 3 and len(set(zs)) == 3 and \
+                        abs((ts[1] - ts[0]) * (zs[2] - zs[0])
+                            - (ts[2] - ts[0]) * (zs[1] - zs[0])) > 1.0:
+                    break
+            out = []
+            for tval, zval in zip(ts, zs):
+                pnt = [0.0, 0.0, 0.0]
+                pnt[oth[0]] = tval * b
+                pnt[oth[1]] = -tval * a
+                pnt[free] = zval
+                out += pnt
             return out
         if family == '3pt-D0-C':
             nrm = [nz(rng, 0.2, 1), nz(rng, 0.2, 1), nz(rng, 0.2, 1)]
@@ -337,7 +395,7 @@ MACRO_FAMILIES = {
     'ell': ['neg-prolate', 'neg-oblate', 'neg-axis-x', 'neg-axis-y',
             'neg-axis-z', 'pos-foci'],
     'wed': ['aligned', 'rotated', 'lefthanded'],
-    'arb': ['tetra', 'pyramid', 'wedge', 'hexa', 'hexa-cw'],
+    'arb': ['tetra', 'pyramid', 'wedge', 'hexa', 'hexa-cw', 'foil'],
 }
 
 
@@ -469,6 +527,13 @@ def macrobody(rng, kind, family):
 def _arb(rng, family, base):
     rot = random_rotation(rng) if rng.random() < 0.5 else np.eye(3)
     sx, sy, sz = rnd(rng, 2, 4), rnd(rng, 2, 4), rnd(rng, 2, 4)
+    if family == 'foil':
+        # a sheet some centimetres wide and a few micrometres to a tenth of
+        # a millimetre thick: its side faces are long and very thin
+        sx, sy = rng.choice([5.0, 10.0, 20.0]), rng.choice([4.0, 10.0])
+        sz = rng.choice([1e-2, 1e-3, 1e-4, 3e-5])
+        if rng.random() < 0.5:
+            rot = np.eye(3)
 
     def place(pts):
         out = []
@@ -492,6 +557,11 @@ def _arb(rng, family, base):
         verts = place([(0, 0, 0), (sx, 0, 0), (sx + skew, sy, 0), (skew, sy, 0),
                        (0, 0, sz), (sx, 0, sz), (sx + skew, sy, sz),
                        (skew, sy, sz)])
+        if family == 'foil':
+            skew = 0.0
+            verts = place([(0, 0, 0), (sx, 0, 0), (sx, sy, 0), (0, sy, 0),
+                           (0, 0, sz), (sx, 0, sz), (sx, sy, sz),
+                           (0, sy, sz)])
         faces = [1234, 5678, 1265, 2376, 3487, 4158]
         if family == 'hexa-cw':
             faces = [4321, 8765, 5621, 6732, 7843, 8514]
@@ -649,7 +719,9 @@ def tr_spec(rng, motion, form):
         if kind == 'm':
             fac = rng.choice([2, 0.5, -1])
             vals = [base, base * fac, base * fac * fac]
-            atoms = [M.fnum(base), f'{fac}m', f'{fac}m']
+            # (the multiplier is a real number: any Fortran spelling)
+            spell = [f'{fac}m', f'{fac}d0m', f'{fac}e0m', f'{fac}D+0M']
+            atoms = [M.fnum(base), rng.choice(spell), rng.choice(spell)]
         elif kind == 'i':
             step = rng.choice([1.0, 0.5, -2.0])
             vals = [base, base + step, base + 2 * step]
